@@ -107,6 +107,23 @@ CHECKS = {
              'the generated named-constant tables, %d %x %o %b, other dump_* functions.',
         technique='bounded unwinding (CBMC) of C lowered from the real C++ per run against a scanner-model postcondition',
     ),
+    'C03': dict(
+        category='proof',
+        text='Slice: the data structures and operators that carry a name from its binder to its readers. bindings::bind, bindings::find, '
+             'uprefs::find, uprefs::refd_ids and the upref accessors (bindings.cc) and op_bind::next/current, op_read::next, op_upread::next, '
+             'op_lex_closure::next (op.cc) are lowered per run. Loop-free functions are checked for all inputs of the model domain (complete): '
+             'bind raises exactly when the name is bound in THIS scope and otherwise binds exactly that name to exactly that binder, nothing else '
+             'changes, the enclosing scope is untouched; uprefs::find hands out ids 0,1,2,... in order of first reference, one per name, stable '
+             'afterwards, none for builtins, under the invariant "ids in use are exactly 0..m_nextid-1"; the binder takes exactly the top value and '
+             'keeps it per state location; a read pushes a copy of its OWN binder\'s value; bind-then-read restores the stack; an up-value read '
+             'pushes the captured value with its id. BOUNDED: find over chains of <= 3 scopes (innermost wins, nullptr if none), the shadowing/no-leak '
+             'law over two scopes, refd_ids over the 4-name table, op_lex_closure with <= 4 up-values (up-value i = i-th value from the top).',
+        design_ref='DESIGN.md section 4 C03',
+        note='SLICE: which scope object each sub-expression gets (build.cc), the order of reads emitted for a block, the uprefs constructor, '
+             'op_apply::substate and the grammar are NOT covered. Trusted: cxx2c lowering; identifiers as atoms and std::map as a total table over '
+             '4 atoms; stacks as arrays of value identities; throw/assert as an error flag.',
+        technique='CBMC on C lowered from the real C++ per run; loop-free functions over full symbolic model inputs, bounded unwinding for the rest',
+    ),
     'C10': dict(
         category='other',
         text='BOUNDED in the size of the graph, unbounded in the history. op_tr_closure::next with next_from_op, next_from_upstream, both '
